@@ -18,6 +18,8 @@ def history(plan, rnd, nsteps, dense_until):
     added = []
     for k in KINDS:                      # one container of each kind up front, so that growth starts early
         lines.append("C " + k); ncont += 1; added.append(0)
+    lines.append("S 1 1100000")          # an early word with a pool of its own: re-observed through the whole history
+    lines.append("S 1 2500000")
     lines.append("CHECK all")
     hot = list(range(ncont))             # containers that receive most additions
     last_call = None
@@ -40,7 +42,11 @@ def history(plan, rnd, nsteps, dense_until):
             lines.append("W %d" % rnd.randrange(1, 9))
         else:
             # a burst of long fresh words: the string arena rolls over to a new pool every MiB
-            lines.append("S %d %d" % (rnd.choice([20, 60]), rnd.choice([700, 5000, 17000])))
+            if rnd.random() < 0.25:
+                # a word larger than one pool of the string arena (1 MiB): it gets a pool of its own
+                lines.append("S 1 %d" % rnd.choice([1048569, 1048577, 1100000, 2500000]))
+            else:
+                lines.append("S %d %d" % (rnd.choice([20, 60]), rnd.choice([700, 5000, 17000])))
         if s < dense_until:
             lines.append("CHECK all")
         else:
